@@ -99,6 +99,10 @@ def enumerate_cases(tier, seed):
     for cn in ctrl_names:
         for en in eps_names:
             for clip in (False, True):
+                if cn == "S_hold" and clip:
+                    # a controller that never grows keeps the first clipped step size for the rest of the run; with checkpoints eps/2
+                    # apart that is a legitimate run of > 1e6 attempts (not a livelock of the loop): outside the horizon, not enumerated
+                    continue
                 for dt0 in DT0S:
                     for lay in layouts(EPSS[en], max_layout):
                         if not quick and en == "eps_default" and len(lay) > 1:
